@@ -248,3 +248,22 @@ package stubs
 
 //@ extern bytes.TrimSpace
 //@   ensures len(result) <= len(s) && (result == nil || sameBacking(result, s))
+
+// text/template as used by the renderer: parsing and execution are arbitrary as far as
+// the contracts go (either may fail; the text produced is unconstrained: whatever is
+// written goes into the buffer's ghost content). A template handed out without an error
+// is non-nil. Neither touches anything but the buffer it writes to.
+//@ extern text/template.New
+//@   ensures result != nil
+//@ extern (*text/template.Template).Option
+//@   params t, opt
+//@   ensures result != nil
+//@ extern (*text/template.Template).Parse
+//@   params t, text
+//@   ensures result1 == nil ==> result0 != nil
+//@ extern (*text/template.Template).Execute
+//@   params t, wr, data
+//@   modifies bufStr[ALL]
+// an error value's message is an unconstrained string; asking for it changes nothing
+//@ iface (error).Error
+//@   params e
